@@ -530,6 +530,13 @@ class BodyPartReader:
             next_line = await self._content.readline()
             if next_line.startswith(self._boundary):
                 line = line[:-2]  # strip CRLF but only once
+                if next_line.rstrip(b"\r\n") in (
+                    self._boundary,
+                    self._boundary + b"--",
+                ):
+                    # the delimiter follows: this was the last line, so the
+                    # end-of-part signal (b"") and at_eof() agree
+                    self._at_eof = True
             self._unread.append(next_line)
 
         return line
